@@ -284,7 +284,7 @@ func main() {
 				oa, ob := rtgen.Observe(baseOf(c), ask), rtgen.Observe(c, ask)
 				fmt.Fprintln(w, emitObs(fmt.Sprintf("c11-%d-%d", a.Seed, i), c, ask, oa, ob, st))
 				i++
-				if uniqueTexts(script) && c.Overlap == nil && len(c.Prev) == 0 && oa.Ran >= 0 && ob.Ran >= 0 && oa.Status == 200 && !oa.Panic && !ob.Panic && r.Chance(1, 12) && i < a.N {
+				if uniqueTexts(script) && c.Req.Path != "/" && c.Req.Path != "" && c.Overlap == nil && len(c.Prev) == 0 && oa.Ran >= 0 && ob.Ran >= 0 && oa.Status == 200 && !oa.Panic && !ob.Panic && r.Chance(1, 12) && i < a.N {
 					// a route answers: the same request once more, cancelled by a global middleware after the match,
 					// before Next() — the route's handler must not run, in either engine
 					cm := c
